@@ -45,8 +45,10 @@ ASSUMPTIONS = [
     "`f(b)(a)` and `x f= b` are compared with f(a, b) only when f(a, b) returned a value (and f(b) is a function)",
 ]
 PLAN = {
-    "quick": {"pairs": "quick", "extra_pairs": 30, "triples": 16, "shards": 96},
-    "thorough": {"pairs": "all", "extra_pairs": 0, "triples": 400, "shards": 192},
+    "quick": {"pairs": "quick", "extra_pairs": 30, "triples": 16, "parts": 4, "cpu": 1.0, "cpu_hostile": 0.3,
+              "max_timeouts": 20, "shards": 128},
+    "thorough": {"pairs": "all", "extra_pairs": 0, "triples": 400, "parts": 16, "cpu": 3.0, "cpu_hostile": 0.3,
+                 "max_timeouts": 120, "shards": 512},
 }
 REG = dict(level="exploration", min_nontrivial=20000, max_inconc=0.02,
            technique="differential runtime monitor: every application form of the same (callable, arguments) evaluated in "
@@ -66,6 +68,8 @@ BATCH = 420
 EXCLUDED = set(pool.EXCLUDED) | {"vars", "eval"}
 FUNC_KINDS = ("func", "type")
 ZERO = {"i0", "b0", "f0", "fm0"}
+# builtins that emit a list in the iteration order of an internal hash map (DESIGN Appendix A)
+HASH_ORDER = {"group_all"}
 
 # ---------------------------------------------------------------- callables
 
@@ -325,7 +329,7 @@ def judge(c, args, forms, evs):
             vd.status = "bad"
             vd.why = why
             return vd
-    dicty = any(pool.BY_NAME[a][2] == "dict" for a in args) or any(_has_dict(e.get("v")) for e in evs if e.get("o") == "ok")
+    dicty = c.tok in HASH_ORDER or any(pool.BY_NAME[a][2] == "dict" for a in args) or any(_has_dict(e.get("v")) for e in evs if e.get("o") == "ok")
     base_s, base_e = byname[BASE[ar]]
     vd.ok_base = base_e.get("o") == "ok"
     sym = [n for n, _ in FORMS[ar]]
@@ -363,6 +367,46 @@ def judge(c, args, forms, evs):
 
 # ---------------------------------------------------------------- running
 
+class Worker(core.Worker):
+    """core.Worker whose watchdog also notices a worker that makes no progress at all: the CPU watchdog of the
+    base class only fires when CPU time is being used, so a worker blocked forever (observed: the allocation
+    budget is hit inside the panic hook's backtrace symbolisation, and the allocation-error hook then waits
+    for the backtrace lock it already holds) would hang the run.  No interpreter operation in the sweep
+    sleeps (sleep/stdin builtins are excluded), so STALL_S seconds without any CPU use is a dead worker; it is
+    reported like a watchdog kill (inconclusive / excluded, never a verdict)."""
+    STALL_S = 12.0
+
+    def _readline(self, budget):
+        cpu0 = None
+        last_cpu, last_change = None, time.time()
+        while True:
+            nl = self.buf.find(b"\n")
+            if nl >= 0:
+                line, self.buf = self.buf[:nl], self.buf[nl + 1:]
+                return line
+            r, _, _ = core.select.select([self.p.stdout], [], [], 0.5)
+            if r:
+                chunk = core.os.read(self.p.stdout.fileno(), 1 << 20)
+                if not chunk:
+                    return ("dead", None)
+                self.buf += chunk
+                last_change = time.time()
+                continue
+            if self.p.poll() is not None:
+                return ("dead", None)
+            cpu = core._cpu_seconds(self.p.pid)
+            if cpu is None:
+                continue
+            if cpu0 is None:
+                cpu0 = cpu
+            elif cpu - cpu0 > budget:
+                return ("timeout", None)
+            if last_cpu is None or cpu - last_cpu > 0.005:
+                last_cpu, last_change = cpu, time.time()
+            elif time.time() - last_change > self.STALL_S:
+                return ("timeout", None)
+
+
 def is_inf(c, args):
     if any(a in pool.INFINITE for a in args):
         return True
@@ -389,11 +433,11 @@ def record_bad(sh, c, args, why, case):
         sh.inconc(why, case)
 
 
-def ev_all(w, stmts, fuel, child=True, jid="c04"):
-    if child:
-        return core.eval_all(w, stmts, prelude=PRELUDE, fresh_each=True, child_each=True, rebase_every=1 << 30,
-                             fuel=fuel, mem=MEM, jid=jid)
-    return core.eval_all(w, stmts, prelude=PRELUDE, fresh_each=True, fuel=fuel, mem=MEM, jid=jid)
+def ev_all(w, stmts, fuel, jid="c04"):
+    """Prelude once per job, every statement in a new child scope of that base environment (the base is
+    rebuilt only after a panic / worker restart, so all forms of a tuple normally see the same objects)."""
+    return core.eval_all(w, stmts, prelude=PRELUDE, fresh_each=True, child_each=True, rebase_every=1 << 30,
+                         fuel=fuel, mem=MEM, jid=jid)
 
 
 def case_text(c, args):
@@ -412,61 +456,91 @@ def report(sh, c, args, vd):
                                  "expected": "both statements end in the same outcome class (equal value and output, or both raise)"})
 
 
-def process(sh, w, c, tuples, isfn, stats):
+def klass(c, t):
+    """Resource class of a tuple: 2 = an infinite stream is passed (small fuel), 1 = a huge number is passed,
+    0 = ordinary.  Classes 1 and 2 run under a short CPU watchdog: when they exhaust a resource they are outside
+    the explored space anyway."""
+    if is_inf(c, t):
+        return 2
+    if is_huge(t):
+        return 1
+    return 0
+
+
+def process(sh, w, c, tuples, isfn, stats, plan):
     """Evaluate all forms of every tuple for callable c.  Returns {args: base event} for arity-1 bookkeeping."""
     base_evs = {}
     if not tuples:
         return base_evs
     ar = len(tuples[0])
     base_tmpl = dict(FORMS[ar])[BASE[ar]]
+    normal_cpu = w.cpu_budget
+    classes = [(0, FUEL, normal_cpu, BATCH), (1, FUEL, plan["cpu_hostile"], 64), (2, FUEL_INF, plan["cpu_hostile"], 64)]
     # pass 1: the plain call alone -- tuples that cannot be decided are dropped before the other forms run
     todo = []
-    for fuel, part in ((FUEL, [t for t in tuples if not is_inf(c, t)]), (FUEL_INF, [t for t in tuples if is_inf(c, t)])):
-        for i in range(0, len(part), BATCH):
-            chunk = part[i:i + BATCH]
-            evs = ev_all(w, [c.render(base_tmpl, t) for t in chunk], fuel, jid="c04a")
-            for t, e in zip(chunk, evs):
-                base_evs[t] = e
-                why = bad_reason(e)
-                if why:
+    try:
+        for kl, fuel, cpu, bsz in classes:
+            part = [t for t in tuples if klass(c, t) == kl]
+            w.cpu_budget = cpu
+            for i in range(0, len(part), bsz):
+                chunk = part[i:i + bsz]
+                if kl and stats["timeouts"] >= plan["max_timeouts"]:
+                    # bound of the workload: this unit already spent its watchdog budget on hostile arguments
+                    sh.excluded += len(chunk)
+                    sh.count("excluded:hostile-arg-skipped-after-%d-timeouts" % plan["max_timeouts"], len(chunk))
+                    continue
+                evs = ev_all(w, [c.render(base_tmpl, t) for t in chunk], fuel, jid="c04a")
+                for t, e in zip(chunk, evs):
+                    base_evs[t] = e
+                    why = bad_reason(e)
+                    if why:
+                        if why in ("timeout", "crash:killed"):
+                            stats["timeouts"] += 1
+                        sh.seen(case_text(c, t), nontrivial=False)
+                        record_bad(sh, c, t, why, c.render(base_tmpl, t))
+                    else:
+                        todo.append((t, kl))
+        # pass 2: all forms (the plain call again, so that every form of a tuple sees the same base environment)
+        redo = []
+        for kl, fuel, cpu, bsz in classes:
+            part = [t for t, k2 in todo if k2 == kl]
+            w.cpu_budget = cpu
+            i = 0
+            while i < len(part):
+                stmts, spans = [], []
+                while i < len(part) and len(stmts) < BATCH:
+                    fs = forms_for(c, part[i], isfn)
+                    spans.append((part[i], fs, len(stmts)))
+                    stmts.extend(s for _, s in fs)
+                    i += 1
+                evs = ev_all(w, stmts, fuel, jid="c04b")
+                stats["stmts"] += len(stmts)
+                for t, fs, off in spans:
+                    vd = judge(c, t, fs, evs[off:off + len(fs)])
+                    if vd.status == "held":
+                        finish(sh, c, t, fs, vd)
+                    else:
+                        redo.append((t, fs, fuel, cpu))
+        # pass 3: anything else is re-run alone in a newly built base environment; only this observation counts
+        if redo:
+            sh.count("confirm:rerun-in-fresh-env", len(redo))
+            for t, fs, fuel, cpu in redo:
+                w.cpu_budget = cpu
+                # one job per tuple = a new base environment (prelude re-run) used by this tuple alone
+                evs = ev_all(w, [s for _, s in fs], fuel, jid="c04c")
+                stats["stmts"] += len(fs)
+                vd = judge(c, t, fs, evs)
+                if vd.status == "bad":
+                    if vd.why in ("timeout", "crash:killed"):
+                        stats["timeouts"] += 1
                     sh.seen(case_text(c, t), nontrivial=False)
-                    record_bad(sh, c, t, why, c.render(base_tmpl, t))
+                    record_bad(sh, c, t, vd.why, case_text(c, t))
                 else:
-                    todo.append((t, fuel))
-    # pass 2: all forms (the plain call again, so that every form of a tuple sees the same base environment)
-    redo = []
-    for fuel in (FUEL, FUEL_INF):
-        part = [t for t, fu in todo if fu == fuel]
-        i = 0
-        while i < len(part):
-            stmts, spans = [], []
-            while i < len(part) and len(stmts) < BATCH:
-                fs = forms_for(c, part[i], isfn)
-                spans.append((part[i], fs, len(stmts)))
-                stmts.extend(s for _, s in fs)
-                i += 1
-            evs = ev_all(w, stmts, fuel, jid="c04b")
-            stats["stmts"] += len(stmts)
-            for t, fs, off in spans:
-                vd = judge(c, t, fs, evs[off:off + len(fs)])
-                if vd.status == "held":
                     finish(sh, c, t, fs, vd)
-                else:
-                    redo.append((t, fs, fuel))
-    # pass 3: anything else is re-run with every form in a completely fresh environment; only this counts
-    if redo:
-        sh.count("confirm:rerun-in-fresh-env", len(redo))
-        for t, fs, fuel in redo:
-            evs = ev_all(w, [s for _, s in fs], fuel, child=False, jid="c04c")
-            stats["stmts"] += len(fs)
-            vd = judge(c, t, fs, evs)
-            if vd.status == "bad":
-                sh.seen(case_text(c, t), nontrivial=False)
-                record_bad(sh, c, t, vd.why, case_text(c, t))
-            else:
-                finish(sh, c, t, fs, vd)
-                if vd.status == "viol":
-                    report(sh, c, t, vd)
+                    if vd.status == "viol":
+                        report(sh, c, t, vd)
+    finally:
+        w.cpu_budget = normal_cpu
     return base_evs
 
 
@@ -474,7 +548,10 @@ def finish(sh, c, t, fs, vd):
     sh.seen(case_text(c, t), nontrivial=vd.ok_base)
     sh.count("tuples:arity%d" % len(t))
     sh.count("forms_evaluated", len(fs))
-    sh.count("agree:value" if vd.ok_base else "agree:all-raise") if vd.status == "held" else sh.count("disagree")
+    if vd.status == "held":
+        sh.count("agree:value" if vd.ok_base else "agree:all-raise")
+    else:
+        sh.count("disagree")
     if vd.fallback:
         sh.count("order-insensitive-match")
         sh.count("order-insensitive-match:" + c.key)
@@ -488,58 +565,78 @@ def finish(sh, c, t, fs, vd):
             sh.count("left-section-compared")
 
 
+def tuples_for(ctx, c):
+    """The deterministic workload of one callable: (pairs, triples).  Randomness keyed by seed and callable."""
+    r = core.rng_for("C04", ctx.seed, 0, c.key)
+    P, Q = pool.NAMES, pool.QUICK
+    pairs, triples = [], []
+    if 2 in c.arities:
+        if ctx.plan["pairs"] == "all":
+            pairs = [(a, b) for a in P for b in P]
+        else:
+            pairs = [(a, b) for a in Q for b in Q]
+            seen = set(pairs)
+            for _ in range(ctx.plan["extra_pairs"]):
+                t = (r.choice(P), r.choice(P))
+                if t not in seen:
+                    seen.add(t)
+                    pairs.append(t)
+    if 3 in c.arities:
+        seen = set()
+        for k in range(ctx.plan["triples"]):
+            src = Q if k % 2 == 0 else P
+            t = (r.choice(src), r.choice(src), r.choice(src))
+            if t not in seen:
+                seen.add(t)
+                triples.append(t)
+    return pairs, triples
+
+
+def is_fn_event(e):
+    return e.get("o") == "ok" and isinstance(e.get("v"), dict) and "fn" in e["v"]
+
+
 def shard(ctx, si, n):
+    """Work units are (callable, part k of K): part k takes every K-th pair of the callable, part 0 also the
+    one-argument sweep and part K-1 the triples, so that an expensive callable is spread over many shards."""
     sh = core.Shard("C04")
-    r = core.rng_for("C04", ctx.seed, si)
-    w = core.Worker(cpu_budget=1.5 if ctx.tier == "quick" else 4.0)
-    stats = {"stmts": 0}
+    w = Worker(cpu_budget=ctx.plan["cpu"])
+    K = ctx.plan["parts"]
     try:
-        names = sorted(x["name"] for x in w.run({"id": "n", "kind": "names"})["result"]["names"]
+        names = sorted(x["name"] for x in w.run({"id": "n", "kind": "names"}, cpu_budget=30)["result"]["names"]
                        if x["kind"] in ("builtin", "type"))
         callables = [Callable(x, x) for x in names if x not in EXCLUDED]
         callables += [Callable(k, tok, setup, ar) for (k, tok, setup, ar) in USER_CALLABLES]
-        mine = [c for i, c in enumerate(callables) if i % n == si]
+        units = [(ci, k) for ci in range(len(callables)) for k in range(K)]
         P = pool.NAMES
-        Q = pool.QUICK
-        for c in mine:
+        for ui in range(si, len(units), n):
+            ci, k = units[ui]
+            c = callables[ci]
             t0 = time.time()
-            sh.count("callables_swept")
             isfn = {}
-            if 1 in c.arities:
-                base = process(sh, w, c, [(a,) for a in P], isfn, stats)
+            stats = {"stmts": 0, "timeouts": 0}
+            if k == 0:
+                sh.count("callables_swept")
+                sh.count("callables_swept:" + ("user-defined" if c.key != c.tok or c.tok in ("Foo", "fa", "fb") else "global"))
+            if k == 0 and 1 in c.arities:
+                base = process(sh, w, c, [(a,) for a in P], isfn, stats, ctx.plan)
                 for (a,), e in base.items():
-                    isfn[a] = e.get("o") == "ok" and isinstance(e.get("v"), dict) and "fn" in e["v"]
+                    isfn[a] = is_fn_event(e)
             else:
-                # the precondition of the right-section clause still needs f(b)
+                # the precondition of the right-section clause needs f(b) for every b
+                w.cpu_budget = ctx.plan["cpu_hostile"]
                 evs = ev_all(w, [c.render("{f}({a})", (a,)) for a in P], FUEL_INF, jid="c04p")
+                w.cpu_budget = ctx.plan["cpu"]
                 for a, e in zip(P, evs):
-                    isfn[a] = e.get("o") == "ok" and isinstance(e.get("v"), dict) and "fn" in e["v"]
-            if 2 in c.arities:
-                if ctx.plan["pairs"] == "all":
-                    pairs = [(a, b) for a in P for b in P]
-                else:
-                    pairs = [(a, b) for a in Q for b in Q]
-                    seen = set(pairs)
-                    for _ in range(ctx.plan["extra_pairs"]):
-                        t = (r.choice(P), r.choice(P))
-                        if t not in seen:
-                            seen.add(t)
-                            pairs.append(t)
-                process(sh, w, c, pairs, isfn, stats)
-            if 3 in c.arities:
-                seen = set()
-                triples = []
-                for k in range(ctx.plan["triples"]):
-                    src = Q if k % 2 == 0 else P
-                    t = (r.choice(src), r.choice(src), r.choice(src))
-                    if t not in seen:
-                        seen.add(t)
-                        triples.append(t)
-                process(sh, w, c, triples, isfn, stats)
+                    isfn[a] = is_fn_event(e)
+            pairs, triples = tuples_for(ctx, c)
+            process(sh, w, c, pairs[k::K], isfn, stats, ctx.plan)
+            if k == K - 1:
+                process(sh, w, c, triples, isfn, stats, ctx.plan)
             dt = time.time() - t0
             if dt > (6 if ctx.tier == "quick" else 60):
-                sh.notes.append("slow callable %s: %.1fs" % (c.key, dt))
-        sh.count("statements_evaluated", stats["stmts"])
+                sh.notes.append("slow unit %s part %d: %.1fs" % (c.key, k, dt))
+            sh.count("statements_evaluated", stats["stmts"])
         if si == 0:
             sh.sample({"callables": len(callables), "forms": {str(k): [n for n, _ in v] for k, v in FORMS.items()},
                        "conditional_forms": [F_LSEC[0], F_RSEC[0], F_OPASSIGN[0]]})
